@@ -16,7 +16,8 @@
 (*        peer, classified in Go: own = equal (eq) to our stream at offset off                 *)
 (*  REnd {how: eof|err|hung, after: eof|data|err|na}   how reading ended; `after` = what one   *)
 (*        more Read returned after end-of-stream                                               *)
-(*  Dec  {cls, chunk, res: frame|error|panic, eq, alloc}   ReadFrameFromReader on crafted bytes*)
+(*  Dec  {e, c, chunk, res: frame|error|done|panic, eq, alloc}   crafted bytes fed to entry point e *)
+(*        (ReadFrameFromReader, ReadFrame on a TCP conn, FrameStream.Read, the listener)         *)
 (*  Rt   {len, ty, chunk, enc: ok|refused, res, eq, alloc}  WriteFrameToWriter then decode     *)
 (*  FD   {dir, sent, len, eq, eof, hung}    forwarding pair (runBidirectionalForward x2):      *)
 (*        what FrameStream.Read returned on the receiving node for one direction               *)
@@ -125,18 +126,27 @@ Cls(c) == c.hdr \o ":" \o c.ty \o ":" \o c.decl \o ":" \o c.avail
 \* crafted bytes that are exactly a well-formed empty frame must decode to that frame (where the
 \* payload limit lies is the implementation's business: the statement only bounds it from above)
 WellFormed(c) == c.hdr = "full" /\ c.decl = "0"
+\* entry point the bytes were fed to (e): rfr | sessrfr = ReadFrameFromReader (crossnode / session facade) on a reader,
+\* tcp | sess = ReadFrame on a real *net.TCPConn, stream = FrameStream.Read, listener = handleConnection's first-frame
+\* read. Outcome and allocation are judged identically for all of them; only what "a frame" looks like differs:
+\* FrameStream.Read hands out the payload of a data frame of its tunnel (res = frame) and skips / ends on everything
+\* else (res = error), the listener consumes the frame and returns (res = done).
+EntryOf(e) == F(e, "e", "rfr")
+ESfx(e) == IF EntryOf(e) = "rfr" THEN "" ELSE ":" \o EntryOf(e)
+ReturnsFrames(e) == EntryOf(e) \in {"rfr", "sessrfr", "tcp", "sess"}
+Outcomes(e) == IF EntryOf(e) = "listener" THEN {"done", "panic"} ELSE {"frame", "error", "panic"}
 TrDec == /\ Is("Dec") /\ l' = l + 1
-         /\ LET d == Cls(Ev.c) \o ":" \o Ev.chunk
+         /\ LET d == Cls(Ev.c) \o ":" \o Ev.chunk \o ESfx(Ev)
                 vs == (IF Ev.res = "panic" THEN {V("DecoderSafe", "panic:" \o d)} ELSE {})
-                 \cup (IF Ev.res \notin {"frame", "error", "panic"} THEN {V("DecoderSafe", "outcome:" \o d)} ELSE {})
+                 \cup (IF Ev.res \notin Outcomes(Ev) THEN {V("DecoderSafe", "outcome:" \o d)} ELSE {})
                  \cup (IF Ev.alloc > MaxFrame + Slack THEN {V("DecoderAlloc", d)} ELSE {})
                  \cup (IF Ev.res = "frame" /\ ~Ev.eq THEN {V("DecoderSafe", "wrong-frame:" \o d)} ELSE {})
-                 \cup (IF WellFormed(Ev.c) /\ Ev.res = "error" THEN {V("RoundTrip", "rejected:" \o d)} ELSE {})
+                 \cup (IF ReturnsFrames(Ev) /\ WellFormed(Ev.c) /\ Ev.res = "error" THEN {V("RoundTrip", "rejected:" \o d)} ELSE {})
             IN viol' = viol \cup vs
          /\ Keep
 
 TrRt == /\ Is("Rt") /\ l' = l + 1
-        /\ LET d == Ev.len \o ":" \o Ev.ty \o ":" \o Ev.chunk
+        /\ LET d == Ev.len \o ":" \o Ev.ty \o ":" \o Ev.chunk \o ESfx(Ev)
                \* an encoder that refuses a payload has not encoded a frame: the statement is silent
                vs == (IF Ev.enc = "ok" /\ (Ev.res # "frame" \/ ~Ev.eq) THEN {V("RoundTrip", d)} ELSE {})
                 \cup (IF Ev.res = "panic" THEN {V("DecoderSafe", "panic:rt:" \o d)} ELSE {})
